@@ -87,24 +87,35 @@ func (defaultSharedInitializeCaller) Call(s *slip.Scope, args slip.List, depth i
 	argMap := map[string]slip.Object{}
 	fillMapFromKeyArgs(s, args, argMap, depth)
 	for k, v := range argMap {
-		sd := obj.Type.initArgDef(k)
-		if sd == nil {
+		sds := obj.Type.initArgDef(k)
+		if len(sds) == 0 {
 			slip.ErrorPanic(s, depth, "%s is not a valid initarg for %s.", k, obj.Type.Name())
 		}
-		if n, has := nameMap[sd.name]; has {
-			slip.ErrorPanic(s, depth, "Duplicate initarg (%s) for slot %s. %s already specified.", sd.name, k, n)
-		}
-		obj.setSlot(s, sd, v, depth)
-		nameMap[sd.name] = k
-	}
-	for k, v := range obj.Type.defaultsMap() {
-		sd := obj.Type.initArgDef(k)
-		if _, has := nameMap[sd.name]; !has {
-			if v == nil {
-				obj.setSlot(s, sd, nil, depth)
-			} else {
-				obj.setSlot(s, sd, v.Eval(s, depth+1), depth)
+		// An initarg initializes every slot that declares it.
+		for _, sd := range sds {
+			if n, has := nameMap[sd.name]; has {
+				slip.ErrorPanic(s, depth, "Duplicate initarg (%s) for slot %s. %s already specified.", sd.name, k, n)
 			}
+			obj.setSlot(s, sd, v, depth)
+			nameMap[sd.name] = k
+		}
+	}
+	for k, form := range obj.Type.defaultsMap() {
+		var (
+			value     slip.Object
+			evaluated bool
+		)
+		for _, sd := range obj.Type.initArgDef(k) {
+			if _, has := nameMap[sd.name]; has {
+				continue
+			}
+			if !evaluated {
+				if form != nil {
+					value = form.Eval(s, depth+1)
+				}
+				evaluated = true
+			}
+			obj.setSlot(s, sd, value, depth)
 			nameMap[sd.name] = k
 		}
 	}
